@@ -1,6 +1,7 @@
 From Coq Require Import Extraction ExtrOcamlBasic.
 From SV Require Import Base.Bytes Spec.Sse Model.Event.
+From SV Require Generated.SourceParams.
 Extraction Language OCaml.
 Extraction "c11_model.ml" cinit cstep crun wire_bytes is_connected encode_gen event_custom ev_wf
   oracle_c11_modulo oracle_c11_strict kf_c11_missing_blank_line kf_c11_oversize_event pieces_of live_senders
-  sse_parse sse_fields expected_of.
+  sse_parse sse_fields expected_of SourceParams.src_chunk_read_hi SourceParams.src_chunk_read_lo.
